@@ -11,6 +11,8 @@
 //   svd33*/svd44* jacobiSVD       eig33*/eig44*  jacobiEigenSolver, minEigenVector, maxEigenVector
 //   procrustes_*  procrustesRotationAndTranslation (weighted or not, with or without uniform scale)
 //   *_subnormal   m44 / m33 / rsmatrix families on matrices whose whole linear part is subnormal in T (uniform 2^k scaling)
+//   *_top         m44 / m33 / rsmatrix families on matrices whose largest entry is within 2^12 of the largest finite T (uniform 2^k
+//                 scaling): row / column sums and sums of squares overflow in T, every entry and every exact factor is finite
 //   procrustes_*_scaled  the procrustes problems with all coordinates scaled exactly by 2^k (|k| <= 60), all weights by 2^j,
 //                 and clouds of small extent at a moderate offset (the problem is homogeneous)
 //
@@ -34,8 +36,8 @@ typedef QM<4> Q4;
 // development aid: worst observed error ratios (only with -DC12_MEASURE, never in the framework build)
 #ifdef C12_MEASURE
 #    include <atomic>
-static std::atomic<uint64_t> g_meas[192]; // ids 96.. : the same quantities in the subnormal / scaled sub-checks
-static const char*           g_meas_name[192];
+static std::atomic<uint64_t> g_meas[288]; // ids 96.. : the same quantities in the subnormal / scaled sub-checks, ids 192.. : in the top-of-range sub-checks
+static const char*           g_meas_name[288];
 static void                  meas (int id, const char* name, double v)
 {
     if (!(v == v)) v = 1e300;
@@ -48,7 +50,7 @@ static struct MeasDump
 {
     ~MeasDump ()
     {
-        for (int i = 0; i < 192; ++i)
+        for (int i = 0; i < 288; ++i)
             if (g_meas_name[i]) fprintf (stderr, "MEAS %3d %-44s %.4g\n", i, g_meas_name[i], u2d (g_meas[i].load ()));
     }
 } g_measdump;
@@ -379,9 +381,27 @@ enum
     LF_MIXEDSIGN,
     LF_ARBITRARY,
     LF_SUBNORMAL,
-    LF_BELOW_RECIP_MAX
+    LF_BELOW_RECIP_MAX,
+    LF_TOP_HALF,
+    LF_TOP_ROWSUM,
+    LF_TOP_COLSUM,
+    LF_TOP_TWOTHIRD
 };
-#define LF_LABELS "negative_determinant", "cond_gt_10", "cond_gt_1000", "tiny_scale_row", "magnitude_2^20_off_unit", "sheared", "xyz_gimbal_rotation", "five_or_more_zero_entries", "mixed_sign_scales", "arbitrary_linear_part", "all_linear_entries_subnormal", "largest_entry_below_1/max"
+#define C12_TOP_LABELS "largest_entry_ge_max/2", "row_abs_sum_overflows", "column_abs_sum_overflows", "row_with_two_entries_above_max/3"
+#define LF_LABELS "negative_determinant", "cond_gt_10", "cond_gt_1000", "tiny_scale_row", "magnitude_2^20_off_unit", "sheared", "xyz_gimbal_rotation", "five_or_more_zero_entries", "mixed_sign_scales", "arbitrary_linear_part", "all_linear_entries_subnormal", "largest_entry_below_1/max", C12_TOP_LABELS
+
+// magnitude modes of the affine generators
+enum
+{
+    MODE_NORMAL    = 0,
+    MODE_SUBNORMAL = 1, // linear part scaled into the subnormal range of T
+    MODE_TOP       = 2  // linear part scaled to the top of the range of T
+};
+struct TopFlags
+{
+    bool half, rowsum, colsum, twothird; // largest entry >= max/2; some row's / column's sum of absolute values exceeds max; some row has two entries above max/3
+    TopFlags () : half (false), rowsum (false), colsum (false), twothird (false) {}
+};
 
 template <class T> struct Aff44
 {
@@ -390,6 +410,7 @@ template <class T> struct Aff44
     double      kappa; // row-equilibrated condition number
     bool        negdet, tinyrow, bigmag, sheared, gimbal, manyzero, mixedsign, arbitrary, subnormal, belowrecip;
     int         lcls;
+    TopFlags    top;
 };
 
 // Uniform power-of-two scaling that puts the largest entry of an NxN linear part at 2^e with e drawn from
@@ -420,6 +441,110 @@ template <class T, int N, class M> static void subnormal_flags (const M& m, bool
     belowrecip = (quad) mx * (quad) std::numeric_limits<T>::max () < 1; // 1/mx is not representable
 }
 
+// ---- top of the range -----------------------------------------------------------------------------
+// Textbook Gram-Schmidt factorisations in quad (defined with the computeRSMatrix family / below)
+static void qdecompose3 (const Q3& L, quad s[3], quad h[3], Q3& R);
+static void qdecompose2 (const Q2& L, quad s[2], quad& h, Q2& R)
+{
+    quad l0 = sqrtq (L[0][0] * L[0][0] + L[0][1] * L[0][1]);
+    R[0][0] = L[0][0] / l0;
+    R[0][1] = L[0][1] / l0;
+    quad d  = R[0][0] * L[1][0] + R[0][1] * L[1][1];
+    quad x = L[1][0] - d * R[0][0], y = L[1][1] - d * R[0][1];
+    quad l1 = sqrtq (x * x + y * y);
+    R[1][0] = x / l1;
+    R[1][1] = y / l1;
+    s[0]    = l0;
+    s[1]    = l1;
+    h       = d / l1;
+}
+static inline void qscales (const Q3& L, quad* sc)
+{
+    quad h[3];
+    Q3   R;
+    qdecompose3 (L, sc, h, R);
+}
+static inline void qscales (const Q2& L, quad* sc)
+{
+    quad h;
+    Q2   R;
+    qdecompose2 (L, sc, h, R);
+}
+// The exact scale factors (row lengths after shear removal) that a factorisation of the ROUNDED matrix has to return must
+// be representable in T with a margin: |s_i| <= 15/16 * max.  (Shear, rotation and translation do not depend on the
+// uniform scaling.)  Also every entry must round to a finite T.
+#ifndef C12_TOP_MARGIN
+#    define C12_TOP_MARGIN 0.9375
+#endif
+template <class T, int N> static bool top_fits (const QM<N>& Lq)
+{
+    const quad mxT = (quad) std::numeric_limits<T>::max ();
+    QM<N>      Lr;
+    for (int i = 0; i < N; ++i)
+        for (int j = 0; j < N; ++j)
+        {
+            if (!(qabs (Lq[i][j]) <= mxT)) return false;
+            Lr[i][j] = (quad) (T) Lq[i][j];
+        }
+    quad sc[N];
+    qscales (Lr, sc);
+    for (int i = 0; i < N; ++i)
+        if (!(qabs (sc[i]) <= mxT * (quad) C12_TOP_MARGIN)) return false;
+    return true;
+}
+// Uniform power-of-two scaling that puts the largest entry of an NxN linear part in [2^e, 2^(e+1)) with e drawn from
+// [max_exponent - 12, max_exponent - 1], the two highest weighted 4x (largest finite T is just below 2^max_exponent): entries up to just below max,
+// rows with several entries above max/3, row / column sums of absolute values and every sum of squares overflow in T.
+// When the exact scale factors of the rounded matrix would not be representable with margin (top_fits) the matrix is
+// halved (once suffices: a scale factor is at most sqrt(N) times the largest entry) - construction, not rejection.
+template <class T, int N> static void scale_to_top (vp::Src& s, QM<N>& Lq)
+{
+    quad mx = 0;
+    for (int i = 0; i < N; ++i)
+        for (int j = 0; j < N; ++j)
+            mx = qmax (mx, qabs (Lq[i][j]));
+    const int emax = std::numeric_limits<T>::max_exponent;
+    int       k    = (int) s.below (18); // the two highest exponents (the only ones where sums of entries overflow) get 4/18 each
+    int       e    = emax - 12 + (k < 12 ? k : 10 + (k & 1));
+    if (!(mx > 0)) return;
+    quad f = q2pow (e - std::ilogb ((double) mx));
+    for (int i = 0; i < N; ++i)
+        for (int j = 0; j < N; ++j)
+            Lq[i][j] *= f;
+    for (int pass = 0; pass < 2 && !top_fits<T, N> (Lq); ++pass)
+        for (int i = 0; i < N; ++i)
+            for (int j = 0; j < N; ++j)
+                Lq[i][j] *= (quad) 0.5;
+}
+template <class T, int N, class M> static void top_flags (const M& m, TopFlags& f)
+{
+    const quad mxT = (quad) std::numeric_limits<T>::max ();
+    quad       mx  = 0;
+    for (int i = 0; i < N; ++i)
+    {
+        quad rs = 0, cs = 0;
+        int  nthird = 0;
+        for (int j = 0; j < N; ++j)
+        {
+            rs += qabs ((quad) m[i][j]);
+            cs += qabs ((quad) m[j][i]);
+            mx = qmax (mx, qabs ((quad) m[i][j]));
+            if (qabs ((quad) m[i][j]) > mxT / 3) ++nthird;
+        }
+        if (rs > mxT) f.rowsum = true;
+        if (cs > mxT) f.colsum = true;
+        if (nthird >= 2) f.twothird = true;
+    }
+    f.half = mx >= mxT / 2;
+}
+static inline void label_top (vp::Ctx& c, const TopFlags& f, int first)
+{
+    if (f.half) c.label (first + 0);
+    if (f.rowsum) c.label (first + 1);
+    if (f.colsum) c.label (first + 2);
+    if (f.twothird) c.label (first + 3);
+}
+
 template <class T> static void gen_translation (vp::Src& s, T* t, int n)
 {
     int k = (int) s.below (4);
@@ -434,10 +559,13 @@ template <class T> static void gen_translation (vp::Src& s, T* t, int n)
 }
 
 // linear part classes: 0 S*H*R from factors, 1 U*diag*V^T with graded conditioning, 2 arbitrary entries, 3 signed permutation * scales (+ one shear)
-// subn: instead of the tiny row / global magnitude options the whole linear part is scaled into the subnormal range of T.
-template <class T> static void gen_affine44 (vp::Ctx& c, Aff44<T>& a, int force_cls = -1, bool subn = false)
+// mode MODE_SUBNORMAL / MODE_TOP: instead of the tiny row / global magnitude options the whole linear part is scaled into
+// the subnormal range / to the top of the range of T.
+template <class T> static void gen_affine44 (vp::Ctx& c, Aff44<T>& a, int force_cls = -1, int mode = MODE_NORMAL)
 {
-    vp::Src& s = c.s;
+    vp::Src&   s    = c.s;
+    const bool subn = mode == MODE_SUBNORMAL;
+    a.top           = TopFlags ();
     a.negdet = a.tinyrow = a.bigmag = a.sheared = a.gimbal = a.manyzero = a.mixedsign = a.arbitrary = a.subnormal = a.belowrecip = false;
     Q3  Lq;
     int cls = force_cls >= 0 ? force_cls : (int) s.below (4);
@@ -517,6 +645,8 @@ template <class T> static void gen_affine44 (vp::Ctx& c, Aff44<T>& a, int force_
     // one row scaled down ("tiny scale"), global power-of-two magnitude
     if (subn)
         scale_to_subnormal<T, 3> (s, Lq);
+    else if (mode == MODE_TOP)
+        scale_to_top<T, 3> (s, Lq);
     else
     {
         if (rare (s, 32))
@@ -547,6 +677,7 @@ template <class T> static void gen_affine44 (vp::Ctx& c, Aff44<T>& a, int force_
         }
     a.manyzero = nzero >= 5;
     if (subn) subnormal_flags<T, 3> (a.M, a.subnormal, a.belowrecip);
+    if (mode == MODE_TOP) top_flags<T, 3> (a.M, a.top);
     T t[3];
     gen_translation<T> (s, t, 3);
     for (int j = 0; j < 3; ++j)
@@ -571,6 +702,7 @@ template <class T> static void label_aff (vp::Ctx& c, const Aff44<T>& a)
     if (a.arbitrary) c.label (LF_ARBITRARY);
     if (a.subnormal) c.label (LF_SUBNORMAL);
     if (a.belowrecip) c.label (LF_BELOW_RECIP_MAX);
+    label_top (c, a.top, LF_TOP_HALF);
     c.nt (a.kappa > 10 || a.negdet);
 }
 
@@ -594,13 +726,13 @@ static const double K_ORTHO  = 12; // R*R^T - I and det R - 1
 
 template <class T> static std::string v3s (const Vec3<T>& v) { return vstr (v, 3); }
 
-template <class T> static void m44_factor_case (vp::Ctx& c, bool subn = false)
+template <class T> static void m44_factor_case (vp::Ctx& c, int mode = MODE_NORMAL)
 {
     typedef Matrix44<T> M44;
     typedef Vec3<T>     V3;
     vp::Src&            s = c.s;
     Aff44<T>            a;
-    gen_affine44<T> (c, a, -1, subn);
+    gen_affine44<T> (c, a, -1, mode);
     const M44& M   = a.M;
     const Q3&  L   = a.L;
     const bool exc = s.coin ();
@@ -611,7 +743,7 @@ template <class T> static void m44_factor_case (vp::Ctx& c, bool subn = false)
     const quad rel  = (quad) K_RECOMP * ke;
     const quad rela = (quad) K_ANGLES * ke;
     const quad relo = (quad) K_ORTHO * ke;
-    const int  mo   = TT<T>::off () + (subn ? 96 : 0);
+    const int  mo   = TT<T>::off () + 96 * mode;
     int        wi = 0, wj = 0;
     // Recomposition errors are measured relative to (row max + smallest normal of T): the returned scale is a value of
     // type T, so when the rows are subnormal it carries an absolute error of denorm_min/2 = eps/2 * smallest normal
@@ -913,12 +1045,33 @@ VP_REQUIRE_LABELS (m44d_factor, "negative_determinant", "cond_gt_10", "cond_gt_1
 // (limits K_RECOMP = 8, K_ANGLES = 12, K_ORTHO = 12 as for the normal range); about 5 % of the cases are discarded
 // because rounding to a few significant bits left the matrix nearly singular.
 #define C12_RULE_M44SUB "affine Matrix44 from the 4 classes of m44*_factor, the linear part multiplied by the power of two that puts its largest entry at 2^e, e uniform in [denorm_min exponent + 6, smallest normal exponent + 2] (all nine entries subnormal in nearly every case, for most of them below 1/max so that a reciprocal would overflow), then rounded to the type; every function must report success and return finite factors; oracle = quad recomposition per slot, tolerance K*kappa_eq*eps relative to (row max + smallest normal); non-trivial = row-equilibrated condition number > 10 or negative determinant"
-VP_RANDOM (m44f_subnormal, 60000, 1200000, C12_RULE_M44SUB) { m44_factor_case<float> (c, true); }
+VP_RANDOM (m44f_subnormal, 60000, 1200000, C12_RULE_M44SUB) { m44_factor_case<float> (c, MODE_SUBNORMAL); }
 VP_LABELS (m44f_subnormal, LF_LABELS)
 VP_REQUIRE_LABELS (m44f_subnormal, "negative_determinant", "cond_gt_10", "sheared", "mixed_sign_scales", "arbitrary_linear_part", "all_linear_entries_subnormal", "largest_entry_below_1/max")
-VP_RANDOM (m44d_subnormal, 60000, 1200000, C12_RULE_M44SUB) { m44_factor_case<double> (c, true); }
+VP_RANDOM (m44d_subnormal, 60000, 1200000, C12_RULE_M44SUB) { m44_factor_case<double> (c, MODE_SUBNORMAL); }
 VP_LABELS (m44d_subnormal, LF_LABELS)
 VP_REQUIRE_LABELS (m44d_subnormal, "negative_determinant", "cond_gt_10", "sheared", "mixed_sign_scales", "arbitrary_linear_part", "all_linear_entries_subnormal", "largest_entry_below_1/max")
+
+// Uniformly scaled affine matrices whose linear part lies at the top of the range of T.  Same functions, same oracle, same
+// multiples of kappa_eq*eps.  The functions divide by the largest absolute entry before anything else, so they succeed
+// whenever the exact scale factors are representable; nothing may be formed from the raw entries (sums, squares, products).
+// Measured worst on the unchanged tree (8e5 cases per type, multiples of kappa_eq*eps, float / double):
+//   recomposition through the returned rotation matrix  3-D 1.21 / 1.22   2-D 1.26 / 1.31
+//   recomposition through returned angles (extractSHRT) 3-D 1.64 / 1.49   2-D 1.41 / 1.39
+//   scale * sansScaling / removeScaling                 3-D 1.82 / 1.89   2-D 1.69 / 1.81
+//   max|R R^T - I|                                      3-D 2.13 / 2.22   2-D 1.89 / 2.14
+//   |det R - 1|                                         3-D 2.13 / 2.18   2-D 1.46 / 1.39
+// (limits K_RECOMP = 8, K_ANGLES = 12, K_ORTHO = 12 as for the normal range); no failure either with the margin on the exact
+// scale factors tightened from 15/16 max to 0.9999 max (4.4e6 cases).
+#define C12_TOP_DESC "the linear part multiplied by the power of two that puts its largest entry in [2^e, 2^(e+1)), e in [max_exponent - 12, max_exponent - 1] with the two highest weighted 4x (entries up to just below the largest finite value, rows with several entries above max/3: row / column sums of absolute values and all sums of squares overflow in the type), halved once when an exact scale factor (row length after shear removal, computed in quad from the rounded matrix) would exceed 15/16 max, then rounded to the type; every exact factor is representable, so every function must report success and return finite factors"
+#define C12_RULE_M44TOP "affine Matrix44 from the 4 classes of m44*_factor, " C12_TOP_DESC "; oracle = quad recomposition per slot, tolerance K*kappa_eq*eps relative to the row max; non-trivial = row-equilibrated condition number > 10 or negative determinant"
+#define C12_TOP_REQ "largest_entry_ge_max/2", "row_abs_sum_overflows", "column_abs_sum_overflows", "row_with_two_entries_above_max/3"
+VP_RANDOM (m44f_top, 40000, 800000, C12_RULE_M44TOP) { m44_factor_case<float> (c, MODE_TOP); }
+VP_LABELS (m44f_top, LF_LABELS)
+VP_REQUIRE_LABELS (m44f_top, "negative_determinant", "cond_gt_10", "sheared", "mixed_sign_scales", "arbitrary_linear_part", "five_or_more_zero_entries", C12_TOP_REQ)
+VP_RANDOM (m44d_top, 40000, 800000, C12_RULE_M44TOP) { m44_factor_case<double> (c, MODE_TOP); }
+VP_LABELS (m44d_top, LF_LABELS)
+VP_REQUIRE_LABELS (m44d_top, "negative_determinant", "cond_gt_10", "sheared", "mixed_sign_scales", "arbitrary_linear_part", "five_or_more_zero_entries", C12_TOP_REQ)
 
 #define C12_RULE_ORDER "S*H*R*T with R built from an angle triple in one of the 24 Euler orders (middle angle 0.02..0.5 rad away from that order's gimbal configuration); rotation oracle = product of elementary quad rotations decoded from the order's documented bit legend; tolerance K*(kappa_eq + 1/gimbal_measure)*eps; non-trivial = order other than XYZ"
 VP_RANDOM (m44f_order, 300000, 6000000, C12_RULE_ORDER) { m44_order_case<float> (c); }
@@ -942,9 +1095,13 @@ enum
     L2_ZEROS,
     L2_ROT_AND_TRANSLATION,
     L2_SUBNORMAL,
-    L2_BELOW_RECIP_MAX
+    L2_BELOW_RECIP_MAX,
+    L2_TOP_HALF,
+    L2_TOP_ROWSUM,
+    L2_TOP_COLSUM,
+    L2_TOP_TWOTHIRD
 };
-#define L2_LABELS "negative_determinant", "cond_gt_10", "cond_gt_1000", "tiny_scale_row", "magnitude_2^20_off_unit", "sheared", "two_or_more_zero_entries", "rotated_and_translated", "all_linear_entries_subnormal", "largest_entry_below_1/max"
+#define L2_LABELS "negative_determinant", "cond_gt_10", "cond_gt_1000", "tiny_scale_row", "magnitude_2^20_off_unit", "sheared", "two_or_more_zero_entries", "rotated_and_translated", "all_linear_entries_subnormal", "largest_entry_below_1/max", C12_TOP_LABELS
 
 template <class T> struct Aff33
 {
@@ -953,10 +1110,13 @@ template <class T> struct Aff33
     double      kappa;
     bool        negdet, tinyrow, bigmag, sheared, zeros, subnormal, belowrecip;
     int         lcls;
+    TopFlags    top;
 };
-template <class T> static void gen_affine33 (vp::Ctx& c, Aff33<T>& a, bool subn = false)
+template <class T> static void gen_affine33 (vp::Ctx& c, Aff33<T>& a, int mode = MODE_NORMAL)
 {
-    vp::Src& s = c.s;
+    vp::Src&   s    = c.s;
+    const bool subn = mode == MODE_SUBNORMAL;
+    a.top           = TopFlags ();
     a.negdet = a.tinyrow = a.bigmag = a.sheared = a.zeros = a.subnormal = a.belowrecip = false;
     Q2  Lq;
     int cls = (int) s.below (4);
@@ -1013,6 +1173,8 @@ template <class T> static void gen_affine33 (vp::Ctx& c, Aff33<T>& a, bool subn 
     }
     if (subn)
         scale_to_subnormal<T, 2> (s, Lq);
+    else if (mode == MODE_TOP)
+        scale_to_top<T, 2> (s, Lq);
     else
     {
         if (rare (s, 32))
@@ -1043,6 +1205,7 @@ template <class T> static void gen_affine33 (vp::Ctx& c, Aff33<T>& a, bool subn 
         }
     a.zeros = nzero >= 2;
     if (subn) subnormal_flags<T, 2> (a.M, a.subnormal, a.belowrecip);
+    if (mode == MODE_TOP) top_flags<T, 2> (a.M, a.top);
     T t[2];
     gen_translation<T> (s, t, 2);
     a.M[2][0] = t[0];
@@ -1053,13 +1216,13 @@ template <class T> static void gen_affine33 (vp::Ctx& c, Aff33<T>& a, bool subn 
     a.negdet = det (a.L) < 0;
 }
 
-template <class T> static void m33_factor_case (vp::Ctx& c, bool subn = false)
+template <class T> static void m33_factor_case (vp::Ctx& c, int mode = MODE_NORMAL)
 {
     typedef Matrix33<T> M33;
     typedef Vec2<T>     V2;
     vp::Src&            s = c.s;
     Aff33<T>            a;
-    gen_affine33<T> (c, a, subn);
+    gen_affine33<T> (c, a, mode);
     const M33& M   = a.M;
     const Q2&  L   = a.L;
     const bool exc = s.coin ();
@@ -1073,12 +1236,13 @@ template <class T> static void m33_factor_case (vp::Ctx& c, bool subn = false)
     if (a.zeros) c.label (L2_ZEROS);
     if (a.subnormal) c.label (L2_SUBNORMAL);
     if (a.belowrecip) c.label (L2_BELOW_RECIP_MAX);
+    label_top (c, a.top, L2_TOP_HALF);
     c.nt (a.kappa > 10 || a.negdet);
     const quad ke   = (quad) a.kappa * (quad) TT<T>::eps ();
     const quad rel  = (quad) K_RECOMP * ke;
     const quad rela = (quad) K_ANGLES * ke;
     const quad relo = (quad) K_ORTHO * ke;
-    const int  mo   = TT<T>::off () + (subn ? 96 : 0);
+    const int  mo   = TT<T>::off () + 96 * mode;
     int        wi = 0, wj = 0;
     const quad fl = q2pow (FInfo<T>::minexp); // see m44_factor_case
 
@@ -1243,12 +1407,20 @@ VP_LABELS (m33d_factor, L2_LABELS)
 VP_REQUIRE_LABELS (m33d_factor, "negative_determinant", "cond_gt_10", "cond_gt_1000", "tiny_scale_row", "magnitude_2^20_off_unit", "sheared", "two_or_more_zero_entries")
 
 #define C12_RULE_M33SUB "affine Matrix33 (2-D) from the 4 classes of m33*_factor, the linear part multiplied by the power of two that puts its largest entry at 2^e, e uniform in [denorm_min exponent + 6, smallest normal exponent + 2], then rounded to the type; every function must report success and return finite factors; oracle = quad recomposition per slot, tolerance K*kappa_eq*eps relative to (row max + smallest normal); non-trivial = kappa_eq > 10 or negative determinant"
-VP_RANDOM (m33f_subnormal, 60000, 1200000, C12_RULE_M33SUB) { m33_factor_case<float> (c, true); }
+VP_RANDOM (m33f_subnormal, 60000, 1200000, C12_RULE_M33SUB) { m33_factor_case<float> (c, MODE_SUBNORMAL); }
 VP_LABELS (m33f_subnormal, L2_LABELS)
 VP_REQUIRE_LABELS (m33f_subnormal, "negative_determinant", "cond_gt_10", "sheared", "all_linear_entries_subnormal", "largest_entry_below_1/max")
-VP_RANDOM (m33d_subnormal, 60000, 1200000, C12_RULE_M33SUB) { m33_factor_case<double> (c, true); }
+VP_RANDOM (m33d_subnormal, 60000, 1200000, C12_RULE_M33SUB) { m33_factor_case<double> (c, MODE_SUBNORMAL); }
 VP_LABELS (m33d_subnormal, L2_LABELS)
 VP_REQUIRE_LABELS (m33d_subnormal, "negative_determinant", "cond_gt_10", "sheared", "all_linear_entries_subnormal", "largest_entry_below_1/max")
+
+#define C12_RULE_M33TOP "affine Matrix33 (2-D) from the 4 classes of m33*_factor, " C12_TOP_DESC "; oracle = quad recomposition per slot, tolerance K*kappa_eq*eps relative to the row max; non-trivial = kappa_eq > 10 or negative determinant"
+VP_RANDOM (m33f_top, 40000, 800000, C12_RULE_M33TOP) { m33_factor_case<float> (c, MODE_TOP); }
+VP_LABELS (m33f_top, L2_LABELS)
+VP_REQUIRE_LABELS (m33f_top, "negative_determinant", "cond_gt_10", "sheared", "two_or_more_zero_entries", C12_TOP_REQ)
+VP_RANDOM (m33d_top, 40000, 800000, C12_RULE_M33TOP) { m33_factor_case<double> (c, MODE_TOP); }
+VP_LABELS (m33d_top, L2_LABELS)
+VP_REQUIRE_LABELS (m33d_top, "negative_determinant", "cond_gt_10", "sheared", "two_or_more_zero_entries", C12_TOP_REQ)
 
 // ===================================================================================================
 // Degenerate input is reported, never decomposed
@@ -1729,19 +1901,22 @@ enum
     LR_NEGDET_B,
     LR_SHEARED,
     LR_SUBNORMAL_A,
-    LR_SUBNORMAL_B
+    LR_SUBNORMAL_B,
+    LR_TOP_A,
+    LR_TOP_B,
+    LR_TOP_ROWSUM
 };
-#define LR_LABELS "rotate_A_scale_A", "rotate_A_scale_B", "rotate_B_scale_A", "rotate_B_scale_B", "A_negative_determinant", "B_negative_determinant", "sheared_input", "A_linear_part_subnormal", "B_linear_part_subnormal"
+#define LR_LABELS "rotate_A_scale_A", "rotate_A_scale_B", "rotate_B_scale_A", "rotate_B_scale_B", "A_negative_determinant", "B_negative_determinant", "sheared_input", "A_linear_part_subnormal", "B_linear_part_subnormal", "A_linear_part_top_of_range", "B_linear_part_top_of_range", "row_abs_sum_of_A_or_B_overflows"
 static const double K_RS = 8; // x (kappa_A + kappa_B) eps, per slot relative to |scale|; measured worst over 1e6 cases per type: 1.17 (float) 1.27 (double)
-// subn: the linear part of A, of B or of both is scaled into the subnormal range of T
-template <class T> static void rsmatrix_case (vp::Ctx& c, bool subn = false)
+// mode MODE_SUBNORMAL / MODE_TOP: the linear part of A, of B or of both is scaled into the subnormal range / to the top of the range of T
+template <class T> static void rsmatrix_case (vp::Ctx& c, int mode = MODE_NORMAL)
 {
     typedef Matrix44<T> M44;
     vp::Src&            s = c.s;
     Aff44<T>            A, B;
-    int                 which = subn ? 1 + (int) s.below (3) : 0; // bit 0: A, bit 1: B
-    gen_affine44<T> (c, A, -1, (which & 1) != 0);
-    gen_affine44<T> (c, B, -1, (which & 2) != 0);
+    int                 which = mode != MODE_NORMAL ? 1 + (int) s.below (3) : 0; // bit 0: A, bit 1: B
+    gen_affine44<T> (c, A, -1, (which & 1) != 0 ? mode : (int) MODE_NORMAL);
+    gen_affine44<T> (c, B, -1, (which & 2) != 0 ? mode : (int) MODE_NORMAL);
     bool kr = s.coin (), ks = s.coin ();
     VP_NOTE (c, "computeRSMatrix<" << TT<T>::nm () << ">(keepRotateA=" << kr << ", keepScaleA=" << ks << ", A=" << mstr (A.M, 4) << ", B=" << mstr (B.M, 4) << ")");
     c.label (kr ? (ks ? LR_KEEP_BOTH : LR_KEEP_ROT) : (ks ? LR_KEEP_SCALE : LR_KEEP_NONE));
@@ -1750,6 +1925,9 @@ template <class T> static void rsmatrix_case (vp::Ctx& c, bool subn = false)
     if (A.sheared || B.sheared) c.label (LR_SHEARED);
     if (A.subnormal) c.label (LR_SUBNORMAL_A);
     if (B.subnormal) c.label (LR_SUBNORMAL_B);
+    if (mode == MODE_TOP && (which & 1) != 0) c.label (LR_TOP_A);
+    if (mode == MODE_TOP && (which & 2) != 0) c.label (LR_TOP_B);
+    if (A.top.rowsum || B.top.rowsum) c.label (LR_TOP_ROWSUM);
     c.nt (!(kr && ks));
     quad sa[3], ha[3], sb[3], hb[3];
     Q3   Ra, Rb;
@@ -1780,7 +1958,7 @@ template <class T> static void rsmatrix_case (vp::Ctx& c, bool subn = false)
         {
             quad d = qabs (got[i][j] - want[i][j]);
             if (!(d == d)) d = (quad) 1e300;
-            MEAS (TT<T>::off () + (subn ? 96 : 0) + 26, "computeRSMatrix / ((kA+kB) eps |s|)", d / (unit * (qabs (ss[i]) + fl)));
+            MEAS (TT<T>::off () + 96 * mode + 26, "computeRSMatrix / ((kA+kB) eps |s|)", d / (unit * (qabs (ss[i]) + fl)));
             VP_REQUIRE (c, d <= (quad) K_RS * unit * (qabs (ss[i]) + fl), "computeRSMatrix/scale-rotation-slot", "computeRSMatrix(keepRotateA=" << kr << ", keepScaleA=" << ks << ") slot [" << i << "][" << j << "] = " << qstr (got[i][j]) << ", S*R of the selected factors = " << qstr (want[i][j]) << " (scale " << qstr (ss[i]) << "); A=" << mstr (A.M, 4) << " B=" << mstr (B.M, 4) << " result=" << mstr (X, 4));
         }
     for (int j = 0; j < 3; ++j)
@@ -1801,12 +1979,21 @@ VP_REQUIRE_LABELS (rsmatrix_d, "rotate_A_scale_A", "rotate_A_scale_B", "rotate_B
 
 // measured worst over 8e5 cases per type: 0.99 (float) 1.34 (double) of (kappa_A+kappa_B)*eps*(|scale| + smallest normal); limit K_RS = 8
 #define C12_RULE_RSSUB "as rsmatrix_*, with the linear part of A, of B or of both scaled by a power of two into the subnormal range of the type (largest entry at 2^e, e from denorm_min exponent + 6 to smallest normal exponent + 2); tolerance K*(kappa_A+kappa_B)*eps*(|scale| + smallest normal); non-trivial = at least one factor taken from B"
-VP_RANDOM (rsmatrix_f_subnormal, 40000, 800000, C12_RULE_RSSUB) { rsmatrix_case<float> (c, true); }
+VP_RANDOM (rsmatrix_f_subnormal, 40000, 800000, C12_RULE_RSSUB) { rsmatrix_case<float> (c, MODE_SUBNORMAL); }
 VP_LABELS (rsmatrix_f_subnormal, LR_LABELS)
 VP_REQUIRE_LABELS (rsmatrix_f_subnormal, "rotate_A_scale_A", "rotate_A_scale_B", "rotate_B_scale_A", "rotate_B_scale_B", "A_linear_part_subnormal", "B_linear_part_subnormal")
-VP_RANDOM (rsmatrix_d_subnormal, 40000, 800000, C12_RULE_RSSUB) { rsmatrix_case<double> (c, true); }
+VP_RANDOM (rsmatrix_d_subnormal, 40000, 800000, C12_RULE_RSSUB) { rsmatrix_case<double> (c, MODE_SUBNORMAL); }
 VP_LABELS (rsmatrix_d_subnormal, LR_LABELS)
 VP_REQUIRE_LABELS (rsmatrix_d_subnormal, "rotate_A_scale_A", "rotate_A_scale_B", "rotate_B_scale_A", "rotate_B_scale_B", "A_linear_part_subnormal", "B_linear_part_subnormal")
+
+// measured worst over 6e5 cases per type: 1.00 (float) 1.40 (double) of (kappa_A+kappa_B)*eps*|scale|; limit K_RS = 8
+#define C12_RULE_RSTOP "as rsmatrix_*, with the linear part of A, of B or of both scaled by a power of two to the top of the range of the type (largest entry in [2^e, 2^(e+1)), e from max_exponent - 12 to max_exponent - 1, halved once when an exact scale factor would exceed 15/16 max: row sums of absolute values and sums of squares overflow, every exact factor and every slot of the documented result is representable); tolerance K*(kappa_A+kappa_B)*eps*|scale|; non-trivial = at least one factor taken from B"
+VP_RANDOM (rsmatrix_f_top, 30000, 600000, C12_RULE_RSTOP) { rsmatrix_case<float> (c, MODE_TOP); }
+VP_LABELS (rsmatrix_f_top, LR_LABELS)
+VP_REQUIRE_LABELS (rsmatrix_f_top, "rotate_A_scale_A", "rotate_A_scale_B", "rotate_B_scale_A", "rotate_B_scale_B", "A_linear_part_top_of_range", "B_linear_part_top_of_range", "row_abs_sum_of_A_or_B_overflows")
+VP_RANDOM (rsmatrix_d_top, 30000, 600000, C12_RULE_RSTOP) { rsmatrix_case<double> (c, MODE_TOP); }
+VP_LABELS (rsmatrix_d_top, LR_LABELS)
+VP_REQUIRE_LABELS (rsmatrix_d_top, "rotate_A_scale_A", "rotate_A_scale_B", "rotate_B_scale_A", "rotate_B_scale_B", "A_linear_part_top_of_range", "B_linear_part_top_of_range", "row_abs_sum_of_A_or_B_overflows")
 
 // ===================================================================================================
 // jacobiSVD, jacobiEigenSolver, minEigenVector, maxEigenVector
